@@ -95,7 +95,7 @@ template <typename TDerived>
 template <typename TVariant>
 inline enable_if_t<IsVariant<TVariant>::value, bool>
 VariantRefBase<TDerived>::containsKey(const TVariant& key) const {
-  return containsKey(key.template as<const char*>());
+  return containsKey(key.template as<JsonString>());
 }
 
 template <typename TDerived>
